@@ -196,7 +196,8 @@ theorem witness_wedged : ∃ σ σ', runOps wCfg (initSt wCfg) wOps = .ok σ ∧
 
 /-- **The full property is false of the current code** (kernel-checked): after a crash between `SetHeight` and
 `UpdateState` the restarted node has chain height 3 and state height 2, and two well-formed answers do not raise the
-height.  Replayed on the real node by stream C04 (`C04/…/crash-after-setheight`). -/
+height.  Replayed on the real node by stream C04
+(`C04/agree/chain-height-ahead-of-state/crash-between-height-and-state`, `C04/wedged/chain-height-ahead-of-state`). -/
 theorem C04_recovers_fails : ¬ C04_recovers_full := by
   intro h
   obtain ⟨σ, σ', hr, hop, _, hlive⟩ := h wCfg wOps wCrash wProbe wProbe (by decide) rfl (by decide) rfl
@@ -247,7 +248,8 @@ def startWithCaches (c : Cfg) (d : Store) (files : List CacheFile) : Except Star
 def C04_cache_full : Prop :=
   ∀ (c : Cfg) (files : List CacheFile), 1 ≤ c.initialHeight → ∃ r, startWithCaches c {} files = .ok r
 
-/-- **false of the current code**: one truncated file and the node cannot start any more -/
+/-- **false of the current code**: one truncated file and the node cannot start any more
+(`C04/restart-fails/cache-file-truncated` on the real node) -/
 theorem C04_cache_fails : ¬ C04_cache_full := by
   intro h
   obtain ⟨r, hr⟩ := h wCfg [.ok, .truncated] (by decide)
